@@ -79,6 +79,7 @@ type Gen struct {
 	Panics              int
 	boundaryStartUsed   bool
 	quiet               bool             // suppress per-field hostility (multi-entry messages must have a chance to succeed)
+	related             []string         // role holders on the entities the current generator looked at (see noteRelated)
 	script              []func() *eng.Tx // follow-up steps queued by a scenario generator; drained before random choice
 }
 
@@ -137,6 +138,7 @@ func (g *Gen) Next() *eng.Tx {
 			}
 			n -= c.w
 		}
+		g.related = g.related[:0]
 		tx := g.safe(ng.f)
 		if tx == nil {
 			continue
@@ -222,7 +224,18 @@ func pick[T any](g *Gen, l []T) (T, bool) {
 
 // wrongSigner picks a signer that should NOT be authorised: former holders first.
 func (g *Gen) wrongSigner(right string, former []string) string {
-	switch g.R.Intn(4) {
+	switch g.R.Intn(5) {
+	case 4, 3:
+		// the holder of another role on the same or a related entity
+		var c []string
+		for _, a := range g.related {
+			if a != right {
+				c = append(c, a)
+			}
+		}
+		if len(c) > 0 {
+			return c[g.R.Intn(len(c))]
+		}
 	case 0:
 		if len(former) > 0 {
 			f := former[g.R.Intn(len(former))]
